@@ -401,18 +401,17 @@ class C15(core.Check):
         def bump(k, n=1):
             stats[k] = stats.get(k, 0) + n
 
-        root_lines = case["files"].get(case["root"], "").split("\n")
-        unq_abs = any(INC_RE.match(l) and l.split("#", 1)[0].split()[1:2] and l.split("#", 1)[0].split()[1].startswith("/") for l in root_lines)
-
         def viol(inv, step, detail, **sig):
             return {"invariant": inv, "kind": step["mode"],
                     "sig": dict(sig, mode=step["mode"], special=str(case.get("special")), expand=str(case["expand"]),
                                 unquoted_absolute_name_in_root="yes" if unq_abs else "no"), "detail": detail}
 
         mf = self.mf
+        root_lines = case["files"].get(case["root"], "").split("\n")
+        unq_abs = any(INC_RE.match(l) and l.split("#", 1)[0].split()[1:2] and l.split("#", 1)[0].split()[1].startswith("/") for l in root_lines)
         # ---- stub fidelity first (this process has not called the library yet, so the two forks inside
         #      are pristine): the same world on a real directory must behave like the simulated one
-        if case.get("real_replay"):
+        if case.get("real_replay") and not (unq_abs and not case["expand"]):  # (known-finding domain: output depends on the path text)
             v = self.real_replay(case)
             bump("stub_fidelity_replays")
             if v:
